@@ -6,26 +6,39 @@ from sx import text as T
 
 PROP = 'C17'
 FORMS = ['dense-array', 'nested-lists', 'triples', 'triples+zero', 'dict', 'list-of-arrays', 'list-of-dicts', 'list-of-sparse-rows',
-         'csr', 'csr-unsorted+zero', 'csc', 'coo', 'coo-duplicates']
+         'csr', 'csr-unsorted+zero', 'csc', 'coo', 'coo-duplicates', 'dok-any-insertion-order', 'lil', 'lil-from-unsorted+zero',
+         'bsr-1x1-blocks', 'bsr-one-block']
+# element types other than float64: the same forms holding (symbolic) integers, or booleans
+TYPED_FORMS = ['dense-array', 'nested-lists', 'triples', 'csr', 'csc', 'coo', 'lil', 'bsr-one-block']
 
 
-def encode(form, D, nr, nc):
+def encode(form, D, nr, nc, kind='real'):
     """the same dense term matrix D in one accepted input form; returns (data, kwargs)"""
     import numpy as np
     b = B()
     sym = b.mode == 'sym'
+    np_type = {'real': float, 'int': int, 'bool': bool}[kind]
+    py = {'real': (lambda v: v), 'int': (lambda v: v if is_sym(v) else int(v)), 'bool': (lambda v: bool(v))}[kind]
+    if kind != 'real':
+        D = [[py(v) for v in r] for r in D]
+
+    def _arr(data):
+        out = np.empty(len(data), dtype=object if sym else np_type)
+        for i, v in enumerate(data):
+            out[i] = v
+        return out
     nzc = [(i, j) for i in range(nr) for j in range(nc) if is_sym(D[i][j]) or D[i][j] != 0]
     zc = [(i, j) for i in range(nr) for j in range(nc) if (i, j) not in nzc]
 
     def arr2(rows):
-        a = np.empty((len(rows), len(rows[0])), dtype=object if sym else float)
+        a = np.empty((len(rows), len(rows[0])), dtype=object if sym else np_type)
         for i, r in enumerate(rows):
             for j, v in enumerate(r):
                 a[i, j] = v
         return a
 
     def arr1(row):
-        a = np.empty(len(row), dtype=object if sym else float)
+        a = np.empty(len(row), dtype=object if sym else np_type)
         for j, v in enumerate(row):
             a[j] = v
         return a
@@ -40,7 +53,28 @@ def encode(form, D, nr, nc):
                 data.append(D[i][j])
                 indices.append(j)
             indptr.append(len(data))
-        return b.csr((_arr(data), indices, indptr), shape=(nr, nc))
+        return b.csr((_arr(data), indices, indptr), shape=(nr, nc), dtype=np_type)
+    if form == 'dok-any-insertion-order':
+        # a dictionary-of-keys matrix converts in insertion order: every order is a different stored layout
+        m = b.sp.dok_matrix((nr, nc), dtype=np_type)
+        perms = list(itertools.permutations(nzc)) if len(nzc) <= 3 else [tuple(nzc), tuple(nzc[::-1]), tuple(nzc[1:] + nzc[:1])]
+        for i, j in perms[choice(len(perms), 'insertion-order')]:
+            m[i, j] = D[i][j]
+        return m, {}
+    if form == 'lil':
+        return b.sp.lil_matrix(csr(set(nzc))), {}
+    if form == 'lil-from-unsorted+zero':
+        cells = set(nzc)
+        if zc:
+            cells.add(zc[choice(len(zc), 'stored-zero')])
+        return b.sp.lil_matrix(csr(cells, reverse=True)), {}
+    if form == 'bsr-1x1-blocks':
+        return b.sp.bsr_matrix(csr(set(nzc), reverse=True), blocksize=(1, 1)), {}
+    if form == 'bsr-one-block':
+        # one dense block: every absent cell becomes an explicitly stored zero
+        if not nzc:
+            raise Abort()
+        return b.sp.bsr_matrix(csr(set(nzc)), blocksize=(nr, nc)), {}
     if form == 'dense-array':
         return arr2(D), {}
     if form == 'nested-lists':
@@ -124,15 +158,17 @@ def _scribble(x):
     return done
 
 
-def h_forms(nr, nc, form):
+def h_forms(nr, nc, form, kind='real'):
     b = B()
-    cells, D = sym_matrix(nr, nc)
+    cells, D = sym_matrix(nr, nc, kind='real' if kind == 'real' else 'int')
+    if kind == 'bool':
+        D = [[1.0 if is_sym(v) else 0.0 for v in r] for r in D]
     oids, sids = ids_for(nr, 'observation'), ids_for(nc, 'sample')
-    data, kw = encode(form, D, nr, nc)
+    data, kw = encode(form, D, nr, nc, kind)
     md = pick(['none', 'both'], 'md')
     omd, smd = metadata_menu(md, oids, sids)
     t, e = call(lambda: b.Table(data, list(oids), list(sids), omd, smd, type='OTU table', **kw))
-    sig = dict(form=form)
+    sig = dict(form=form, element_type=kind)
     if e is not None:
         fail('forms:raised', f"{type(e).__name__}: {e}"[:160], **sig)
         return
@@ -249,6 +285,10 @@ def jobs(tier):
     for nr, nc in shapes:
         for f in FORMS:
             out.append(('forms', (nr, nc, f)))
+    for nr, nc in ([(2, 2)] if tier == 'quick' else [(2, 2), (2, 3), (3, 2)]):
+        for f in TYPED_FORMS:
+            for kind in ('int', 'bool'):
+                out.append(('forms', (nr, nc, f, kind)))
     for n in ((2, 3) if tier == 'quick' else (2, 3, 4)):
         for h in (True, False):
             out.append(('adjacency', (n, h)))
